@@ -135,9 +135,16 @@ defvjp(
     lambda ans, x, y: unbroadcast_f(x, lambda g: g),
     lambda ans, x, y: unbroadcast_f(y, lambda g: -g * anp.floor(x / y)),
 )
+def power_exponent_minus_one(x, y):
+    # d/dx x**y = y * x**(y - 1).  Only at x == 0 with y == 0 is that 0 * 0**-1 = nan (the derivative of the constant 1 is 0):
+    # there, and only there, the exponent is replaced.  (Replacing it wherever y == 0 keeps the value right but makes the
+    # rule a different function of y: the mixed derivative d2/dx dy at y == 0 came out as x instead of 1/x.)
+    return anp.where(anp.logical_and(y == 0, x == 0), 1.0, y - 1)
+
+
 defvjp(
     anp.power,
-    lambda ans, x, y: unbroadcast_f(x, lambda g: g * y * x ** anp.where(y, y - 1, 1.0)),
+    lambda ans, x, y: unbroadcast_f(x, lambda g: g * y * x ** power_exponent_minus_one(x, y)),
     lambda ans, x, y: unbroadcast_f(y, lambda g: g * log_of_base(x, ans) * ans),
 )
 defvjp(
